@@ -123,6 +123,18 @@ def run(chk):
         xs = gen.repertoire(rng, n, allow_empty=True)
         k = rng.choice([1, 2, 3, 4, 6])
         add("R", xs, k, comp=rng.choice([1, 2, 5]), model=n <= 12, engines=("kdtree",) if k > 1 else ("hash_based", "kdtree"))
+    # worker count must not matter (details in C11): a few parallel runs with a remainder
+    for _ in range(4 if not thorough else 20):
+        xs = gen.sub_collection(rng, pools[0][1], rng.choice([5, 7, 11]))
+        sop = {"op": "brute_self", "xs": xs, "k": 1, "mode": "lev"}
+        ncpu = rng.choice([2, 3, 4])
+        b.add("kdtree-parallel|E(ACD)", lambda xs=xs, ncpu=ncpu: nn.kdtree(xs, max_edits=1, n_cpu=ncpu), None, sop, {"xs": xs, "k": 1, "n_cpu": ncpu})
+    # long sequences (letter counts beyond 255) with strong compression
+    for comp in (1, 20, 25):
+        base = "".join(rng.choice(AA) for _ in range(255))
+        xs = [base, base + "A", base[:-1], base[:100] + "C" + base[100:], "A" * 256, "A" * 257]
+        sop = {"op": "brute_self", "xs": xs, "k": 1, "mode": "lev"}
+        b.add("kdtree|long", lambda xs=xs, comp=comp: nn.kdtree(xs, max_edits=1, compression=comp), None, sop, {"n": len(xs), "compression": comp, "k": 1})
     chk.exhaustive = True
     b.run()
 
